@@ -621,6 +621,8 @@ impl Gen {
                     let idx = if self.ordered { match rng.below(4) { 0 => " -".to_string(), 1 => format!(" {}", rng.below(9)), _ => format!(" {}", store.all_proxies.get(&a2).map(|p| p.index).unwrap_or(0)) } } else { String::new() };
                     return format!("add_proxy {} x{}:1 x{}:2 -{}", a2, self.next_proxy, self.next_proxy, idx); } }
                 20..=21 => { self.next_proxy += 1; let j = self.next_proxy; let idx = if self.ordered && rng.chance(3, 4) { format!(" {}", rng.below(30)) } else { String::new() };
+                    // a well-formed proxy address whose two node addresses are equal must be refused (fix bf43b2d, finding F02a)
+                    if rng.chance(1, 3) { return format!("add_proxy e{}:6 z{}:1 z{}:1 -{}", j, j, j, idx); }
                     return format!("add_proxy {} y{}:1 y{}:2 -{}", rng.pick(&["nocolon", "a:b:c", ":", "h9:1"]), j, j, idx); }
                 22..=29 => { let n = *rng.pick(&names); let k = if self.big { 4 * rng.range(1, 40) } else { *rng.pick(&[4i64, 4, 8, 8, 12, 16, 6, 0]) }; return format!("add_cluster {} {} -", n, k); }
                 30..=37 => { if !clusters.is_empty() { let n = rng.pick(&clusters).clone(); let cur = store.clusters.values().find(|c| c.name.to_string() == n).map(|c| c.chunks.len() * 4).unwrap_or(4) as i64;
